@@ -12,11 +12,28 @@ pub const K6: &str = "c12.negative_zero_time";
 
 #[derive(Clone, Debug)]
 pub struct Case {
+    /// format version of the header line (the timing-point rules do not depend on it)
+    pub ver: i32,
+    /// the [TimingPoints] section is interrupted before line `.0` by another section (kind `.1`) and resumed:
+    /// the rules do not depend on that
+    pub split: Option<(usize, u8)>,
+    /// replayed files: the text as given (the fields below describe it)
+    pub raw: Option<String>,
     pub mode: u8,
     pub def_bank_line: &'static str,
     pub def_vol_line: &'static str,
     pub lines: Vec<String>,
 }
+
+/// what may stand between two parts of the [TimingPoints] section
+const SPLITS: &[&str] = &[
+    "\n[Colours]\nCombo1 : 1,2,3\n\n",
+    "\n[HitObjects]\n100,100,0,1,0\n\n",
+    "[Metadata]\nTitle:x\n",
+    "\n[HitObjects]\n\n",
+    "[Events]\n2,100,200\n[Difficulty]\nSliderMultiplier:1.2\n",
+    "[Unknown]\n",
+];
 
 const BANK_LINES: &[(&str, u8)] = &[
     ("", 0),
@@ -36,11 +53,20 @@ const VOL_LINES: &[(&str, i32)] = &[
 
 impl Case {
     pub fn text(&self) -> String {
+        if let Some(r) = &self.raw {
+            return r.clone();
+        }
         let mut s = format!(
-            "osu file format v14\n\n[General]\nMode: {}\n{}{}\n[TimingPoints]\n",
-            self.mode, self.def_bank_line, self.def_vol_line
+            "osu file format v{}\n\n[General]\nMode: {}\n{}{}\n[TimingPoints]\n",
+            self.ver, self.mode, self.def_bank_line, self.def_vol_line
         );
-        for l in &self.lines {
+        for (i, l) in self.lines.iter().enumerate() {
+            if let Some((at, kind)) = self.split {
+                if at == i {
+                    s.push_str(SPLITS[kind as usize % SPLITS.len()]);
+                    s.push_str("[TimingPoints]\n");
+                }
+            }
             s.push_str(l);
             s.push('\n');
         }
@@ -153,6 +179,7 @@ fn classify_k6(case: &Case) -> bool {
         return false;
     }
     let mut c = case.clone();
+    c.raw = None; // (a replayed file is rebuilt from its fields)
     for l in c.lines.iter_mut() {
         if time_is_neg_zero(l) {
             let rest = l.splitn(2, ',').nth(1).map(|r| format!(",{r}")).unwrap_or_default();
@@ -247,7 +274,7 @@ fn index_to_case(mut idx: u64, max_len: usize) -> Case {
         idx /= k;
     }
     lines.reverse();
-    Case { mode, def_bank_line: "", def_vol_line: "", lines }
+    Case { ver: 14, split: None, raw: None, mode, def_bank_line: "", def_vol_line: "", lines }
 }
 
 // ---- random generator ------------------------------------------------------
@@ -261,14 +288,26 @@ fn gen_line(t: &mut Tape, hostile: bool, neg_zero: bool, clock: &mut f64) -> Str
         }
         2 => (*t.pick(&[" 20 ", "1e1", "+10", "20.0", "010", "0.0"])).to_string(),
         3 => format!("{}", t.int(-2000, 200000) as f64 / 8.0),
-        _ => (*t.pick(&["x", "3000000000", "NaN", "", "inf", "-2147483648", "2147483647", "1e400"])).to_string(),
+        _ => {
+            if t.chance(50) {
+                crate::gen::doc::odd_number(t).to_string()
+            } else {
+                (*t.pick(&["x", "3000000000", "NaN", "", "inf", "-2147483648", "2147483647", "1e400"])).to_string()
+            }
+        }
     };
     let time = if neg_zero && t.chance(25) { "-0".to_string() } else { time };
     let bl: String = match t.weighted(&[6, 6, 2, if hostile { 2 } else { 0 }]) {
         0 => (*t.pick(&["500", "1", "100000", "0", "333.33", "6", "60000", "59999.5", "250"])).to_string(),
         1 => (*t.pick(&["-100", "-50", "-1000", "-2000", "-5", "-100", "-133.33", "-10", "-0.5", "-20000", "NaN", "-0"])).to_string(),
         2 => (*t.pick(&[" 250 ", "5e2", "+400", "-1e2", "nan", "-NaN"])).to_string(),
-        _ => (*t.pick(&["abc", "3e9", "inf", "-inf", "", "-3e9", "1,5"])).to_string(),
+        _ => {
+            if t.chance(50) {
+                crate::gen::doc::odd_number(t).to_string()
+            } else {
+                (*t.pick(&["abc", "3e9", "inf", "-inf", "", "-3e9", "1,5"])).to_string()
+            }
+        }
     };
     let nf = t.weighted(&[1, 1, 1, 1, 1, 1, 3, 6]);
     let fields: [String; 6] = [
@@ -303,8 +342,10 @@ pub fn gen_case(t: &mut Tape, neg_zero: bool) -> Case {
     let hostile = t.chance(40);
     let n = t.below(41);
     let mut clock = -(t.int(0, 8) as f64) * 250.0;
-    let lines = (0..n).map(|_| gen_line(t, hostile, neg_zero, &mut clock)).collect();
-    Case { mode, def_bank_line, def_vol_line, lines }
+    let lines: Vec<String> = (0..n).map(|_| gen_line(t, hostile, neg_zero, &mut clock)).collect();
+    let ver = *t.pick(&[14, 14, 14, 3, 5, 7, 8, 9, 12, 128, 6, 4, 10, 13]);
+    let split = if t.chance(15) && !lines.is_empty() { Some((t.below(lines.len()), t.below(SPLITS.len()) as u8)) } else { None };
+    Case { ver, split, raw: None, mode, def_bank_line, def_vol_line, lines }
 }
 
 pub fn run(ctx: &mut Ctx) {
@@ -350,23 +391,14 @@ pub fn run(ctx: &mut Ctx) {
 }
 
 fn case_from_text(text: &str) -> Option<Case> {
-    // the text of a regress file: a [General] prefix and a [TimingPoints] section
+    // the text of a regress / replay file: a [General] prefix and one or more [TimingPoints] parts
+    use rosu_map::section::Section;
     let mut mode = 0u8;
+    let ver: i32 = text.lines().next().and_then(|l| l.strip_prefix("osu file format v")).and_then(|v| v.trim().parse().ok()).unwrap_or(14);
     let mut bank = "";
     let mut vol = "";
-    let mut lines = vec![];
-    let mut in_tp = false;
     for l in text.lines() {
-        if l == "[TimingPoints]" {
-            in_tp = true;
-            continue;
-        }
-        if in_tp {
-            if l.starts_with('[') {
-                return None;
-            }
-            lines.push(l.to_string());
-        } else if let Some(m) = l.strip_prefix("Mode: ") {
+        if let Some(m) = l.strip_prefix("Mode: ") {
             mode = m.trim().parse().ok()?;
         } else if l.starts_with("SampleSet") {
             bank = BANK_LINES.iter().find(|(b, _)| b.trim_end() == l).map(|x| x.0)?;
@@ -374,7 +406,9 @@ fn case_from_text(text: &str) -> Option<Case> {
             vol = VOL_LINES.iter().find(|(b, _)| b.trim_end() == l).map(|x| x.0)?;
         }
     }
-    Some(Case { mode, def_bank_line: bank, def_vol_line: vol, lines })
+    let fr = crate::refmodel::framing::frame(text);
+    let lines: Vec<String> = fr.trace.iter().filter(|(s, _)| *s == Section::TimingPoints).map(|(_, l)| l.clone()).collect();
+    Some(Case { ver, split: None, raw: Some(text.to_string()), mode, def_bank_line: bank, def_vol_line: vol, lines })
 }
 
 pub fn replay(ctx: &mut Ctx, ext: &str, bytes: &[u8]) -> Result<Option<String>, Fail> {
@@ -407,6 +441,9 @@ fn fuzz_case(sel: [u8; 3], text: &str) -> Option<Case> {
     use crate::refmodel::framing::frame;
     use rosu_map::section::Section;
     let case = Case {
+        ver: [14, 14, 3, 7, 128][(sel[0] / 4) as usize % 5],
+        split: None,
+        raw: None,
         mode: sel[0] % 4,
         def_bank_line: BANK_LINES[sel[1] as usize % BANK_LINES.len()].0,
         def_vol_line: VOL_LINES[sel[2] as usize % VOL_LINES.len()].0,
@@ -415,7 +452,7 @@ fn fuzz_case(sel: [u8; 3], text: &str) -> Option<Case> {
     let fr = frame(&case.text());
     let expect: Vec<&str> = case.lines.iter().map(|l| l.trim_end()).filter(|tl| !tl.is_empty() && !tl.trim_start().starts_with("//")).collect();
     let prefix = 1 + usize::from(!case.def_bank_line.is_empty()) + usize::from(!case.def_vol_line.is_empty());
-    let same = fr.version == 14
+    let same = fr.version == case.ver
         && fr.trace.len() == prefix + expect.len()
         && fr.trace[..prefix].iter().all(|(s, _)| *s == Section::General)
         && fr.trace[prefix..].iter().zip(&expect).all(|((s, l), e)| *s == Section::TimingPoints && l == e);
